@@ -5,7 +5,7 @@ every check, restore /repo. Any check that alarms is a false alarm to fix (after
 preserves behaviour). Stores the refactoring under /verif/refactors/<id>/."""
 import glob, json, os, shutil, subprocess, sys
 import os as _os
-_os.environ[\"VF_NO_EVIDENCE\"] = \"1\"
+_os.environ["VF_NO_EVIDENCE"] = "1"
 rid, src = sys.argv[1:3]
 WT = "/tmp/wt-fix"
 ENV = dict(os.environ, CARGO_TARGET_DIR="/tmp/wt-target", CARGO_NET_OFFLINE="true")
